@@ -20,4 +20,5 @@ def run(tier, replay=None):
                     timeout=200 if tier == "quick" else 1500)
     ck.add_run(res)
     ck.handle_violations(res, rp, env=env)
+    cross_solver(ck, mod, hp, "slice", "^Harness_C13_(Sort|Filter|Scans|Fold)$", env=env)
     return ck.finish()
